@@ -915,10 +915,13 @@ func walkSound(v ssa.Value, F *ssa.Function, seen map[ssa.Value]bool) (bool, str
 					base = canon(sl.X) // components[:len-1]
 				}
 				if cl := callOf(base); cl != nil && (isFunc(calleeObj(cl), "strings", "Split") || isFunc(calleeObj(cl), "strings", "SplitN")) {
-					if cleanedValue(cl.Call.Args[0], map[ssa.Value]bool{}) {
-						return true, ""
+					if !cleanedValue(cl.Call.Args[0], map[ssa.Value]bool{}) {
+						return false, "the components are split from a value that is not the cleaned path (e.g. the raw header name: 'x/../link/f' would never inspect 'link')"
 					}
-					return false, "the components are split from a value that is not the cleaned path (e.g. the raw header name: 'x/../link/f' would never inspect 'link')"
+					if ok, why := relValue(cl.Call.Args[0], map[ssa.Value]bool{}); !ok {
+						return false, why
+					}
+					return true, ""
 				}
 				return false, "component slice of unknown origin"
 			}
@@ -957,10 +960,86 @@ func walkSound(v ssa.Value, F *ssa.Function, seen map[ssa.Value]bool) (bool, str
 			return walkSound(cl.Call.Args[0], F, seen)
 		}
 	}
+	if sl, ok := v.(*ssa.Slice); ok && sl.High != nil && isStringType(sl.X.Type()) {
+		return false, "a textual prefix of the joined path is inspected: which prefixes those are depends on index arithmetic over the destination as the caller spelled it, not on the components of the cleaned relative path"
+	}
 	if cleanedValue(v, map[ssa.Value]bool{}) {
 		return true, ""
 	}
 	return false, "unrecognised derivation of the walked path (" + v.String() + ")"
+}
+
+// relValue: the value whose components are walked is the entry's path RELATIVE to the destination — the result of
+// filepath.Rel, possibly cleaned or trimmed. A prefix cut off textually counts only when what is cut off is itself a
+// cleaned value (the joined path starts with the CLEANED destination, not with the destination as spelled); the
+// directory part of the relative path does not count (for a top-level entry it is ".", and the walk would inspect
+// the destination itself, which may be a link).
+func relValue(v ssa.Value, seen map[ssa.Value]bool) (bool, string) {
+	v = cx(v)
+	if seen[v] {
+		return true, ""
+	}
+	seen[v] = true
+	switch x := v.(type) {
+	case *ssa.Phi:
+		for _, e := range x.Edges {
+			if ok, why := relValue(e, seen); !ok {
+				return false, why
+			}
+		}
+		return true, ""
+	case *ssa.Slice:
+		return relValue(x.X, seen)
+	}
+	if cl := callOf(v); cl != nil {
+		o := calleeObj(cl)
+		switch {
+		case isFunc(o, "path/filepath", "Rel"):
+			return true, ""
+		case isFunc(o, "path/filepath", "Clean"), isFunc(o, "path/filepath", "ToSlash"), isFunc(o, "path/filepath", "FromSlash"):
+			return relValue(cl.Call.Args[0], seen)
+		case isFunc(o, "path/filepath", "Dir"):
+			return false, "the components walked are those of the DIRECTORY part of the relative path: for a top-level entry that is \".\", and the walk inspects the destination itself — a destination that is a link to a directory is refused"
+		case isFunc(o, "strings", "TrimPrefix"), isFunc(o, "strings", "TrimSuffix"):
+			ok0, why0 := relValue(cl.Call.Args[0], seen)
+			if ok0 {
+				return true, ""
+			}
+			if _, isC := cl.Call.Args[1].(*ssa.Const); isC {
+				return false, why0
+			}
+			if cleanedValue(cl.Call.Args[1], map[ssa.Value]bool{}) {
+				return true, ""
+			}
+			return false, "the relative path is obtained by cutting the destination off the joined path textually: the joined path starts with the cleaned destination, the prefix cut is the destination as the caller spelled it (./out, a//b): nothing is cut, and the walk runs over the wrong components"
+		}
+		if g := cl.Common().StaticCallee(); g != nil && gp != nil && gp.InModule(g) && len(seen) < 64 {
+			idx := 0
+			if ex, ok := v.(*ssa.Extract); ok {
+				idx = ex.Index
+			}
+			n := 0
+			for _, r := range successReturns(g) {
+				for _, rv := range returnValues(r, idx) {
+					n++
+					if rv == nil {
+						return false, "a helper result of unknown origin"
+					}
+					if ok, why := relValue(rv, seen); !ok {
+						return false, why
+					}
+				}
+			}
+			if n > 0 {
+				return true, ""
+			}
+		}
+	}
+	if _, isP := v.(*ssa.Parameter); isP {
+		// a helper's parameter: what it holds is decided at the call site, which the inlined form shows
+		return false, "the components walked are those of a helper's parameter, and nothing here shows that it holds the path relative to the destination"
+	}
+	return false, "the components walked are not those of the entry's path relative to the destination (filepath.Rel)"
 }
 
 // C01.nofollow — a file or directory entry must not be written / chmod'ed /
